@@ -1647,9 +1647,9 @@ def run_sequence(kind, config_name, seed, seq, ops, stop_at_first=True, skip_sig
                 (kind_p, val_p), ex_p = outcome(lambda: fn(tw.proxy, *[o.for_proxy for o in operands]))
                 one = names[0] if names is not None and len(names) == 1 and type(names[0][1]) is str else (None, None)
                 hooks_answer = kind == "hooked" and not label.startswith("cmp:")     # its own hooks decide, and they delegate
-                denied = ex_p is not None and not hooks_answer and is_policy_denial(
+                denied = ex_p is not None and is_policy_denial(
                     ex_p, config_name, one[0], one[1], type(tw.twin) if label.startswith("cmp:") else tw.twin,
-                    pickling=spec.label in ("copy", "pickle"))
+                    pickling=spec.label in ("copy", "pickle")) and not (hooks_answer and type(ex_p).__name__ == "AttributeError")
                 if denied:
                     res_p, res_t = ("exc", "AttributeError"), None
                 else:
